@@ -154,7 +154,13 @@ def run(tier, seed):
                 xm[k, 0] -= h
                 with numpy.errstate(all="ignore"):
                     fd = (float(obj.misfit(xp)) - float(obj.misfit(xm))) / (2 * h)
-                if math.isfinite(fd) and abs(fd - grad[k]) > 0.03 * (abs(fd) + abs(grad[k])) + 1e-6:
+                # (the error of the difference quotient scales with the single terms of the sum, not with their possibly cancelling total)
+                with numpy.errstate(all="ignore"):
+                    res0 = numpy.abs(numpy.nan_to_num(numpy.asarray(fwd, dtype=float)[0] - numpy.asarray(c["obs"], dtype=float)[0]))
+                    sd0 = numpy.asarray(c["sds"], dtype=float)[0]
+                    vuse = (x[-1] if c["infer"] else c["v"])
+                    scale_terms = float(numpy.sum(res0 / (sd0 ** 2 * abs(vuse))))
+                if math.isfinite(fd) and abs(fd - grad[k]) > 0.03 * (abs(fd) + abs(grad[k])) + 0.01 * scale_terms + 1e-6:
                     violations.append(Violation("gradient-near-station", f"{desc} at {x} (event 0 half a metre from station 0): d misfit / d coordinate {k} is {fd} by central differences, "
                                                 f"gradient component {k} is {grad[k]}", {"case": c}))
                     break
